@@ -76,11 +76,19 @@ end Redb.Spec
 namespace Redb.BTree
 open Redb.Key Redb.Spec
 
-theorem c04_flatten_sorted (t : KT) (hc : CmpLaws t) (lo hi : Option Bytes) (d : Nat) (tr : Tree)
+theorem c04_flatten_sorted (t : KT) (hc : CmpLaws t)
+    (lo hi : Option Bytes) (hlo : ∀ l, lo = some l → valid t l = true)
+    (hhi : ∀ h, hi = some h → valid t h = true) (d : Nat) (tr : Tree)
     (h : wf t lo hi d tr = true) :
     Sorted t (flatten tr) ∧ KeysValid t (flatten tr) ∧
     ∀ e, e ∈ flatten tr → aboveLo t lo e.1 = true ∧ belowHi t hi e.1 = true :=
-  flatten_sorted t hc lo hi d tr h
+  flatten_sorted t hc lo hi hlo hhi d tr h
+
+/-- the root case: a well-formed tree holds a strictly sorted list of valid keys -/
+theorem c04_root_sorted (t : KT) (hc : CmpLaws t) (d : Nat) (tr : Tree)
+    (h : wf t none none d tr = true) : Sorted t (flatten tr) ∧ KeysValid t (flatten tr) :=
+  let r := flatten_sorted t hc none none (by simp) (by simp) d tr h
+  ⟨r.1, r.2.1⟩
 
 theorem c04_lookup_of_wf (t : KT) (hc : CmpLaws t) (lo hi : Option Bytes) (d : Nat) (tr : Tree)
     (h : wf t lo hi d tr = true) (k : Bytes) (hk : valid t k = true) :
